@@ -1,7 +1,7 @@
 (* Pinned statements of C08 (generated once by tools/mkpins.py from coq/props/C08.v, then committed). *)
 From DV Require Import Model.Base Model.NameCheck Model.Parser Model.Header Model.Readers Model.Uncompress
   Model.Mutate Model.Compress Model.Renamer Spec.PacketSpec Spec.RecordSpec Spec.PlainSpec Proofs.Hoare Proofs.HeaderBits Proofs.InsertLemmas Proofs.EdnsPlain Proofs.WalkSkip
-  Proofs.PlainWf Proofs.ViewAfter Proofs.InsertSpec Proofs.HeaderInv Proofs.CursorHist props.C08.
+  Proofs.PlainWf Proofs.ViewAfter Proofs.InsertSpec Proofs.HeaderInv Proofs.CursorHist Proofs.DecompressFirst props.C08.
 Check (C08_decompression_keeps_edns_summary : forall p v q v',
   bytes_ok p -> parse p = Ok v -> uncompress p = Ok q -> parse q = Ok v' ->
   pp_edns_count v' = pp_edns_count v /\ pp_ext_rcode v' = pp_ext_rcode v /\ pp_edns_version v' = pp_edns_version v /\
@@ -78,3 +78,14 @@ Check (C08_histories_from_parse_with_cursor_total : forall p v it o ops s1, byte
   run_hop2 o (v, it) = (s1, Ok tt) -> ok_along_tol ops s1 ->
   exists s', run_hops3_tol ops s1 = (s', Ok tt) /\ dinv (fst s') /\ snd s' = it /\ is_response (pp_packet (fst s'))).
 Print Assumptions C08_histories_from_parse_with_cursor_total.
+Check (C08_cursor_decompress : forall p v it qls qt lxa lxn lxr l1 r x l2,
+  bytes_ok p -> parse p = Ok v -> reading p qls qt lxa lxn lxr -> lxa ++ lxn ++ lxr = l1 ++ (r, x) :: l2 ->
+  it_section it <> SQuestion ->
+  exists dv lA' lN' lR' l1' r' l2',
+    m_cursor_decompress (rv_off r) (v, it) =
+      ((dv, it_set (it_set it (Some (rv_off r')) (it_offset_next it) (it_name_end it)) (Some (rv_off r')) (rv_name_end r' + 10 + rv_rdlen r') (rv_name_end r')), Ok tt) /\
+    dinv dv /\ uncompress p = Ok (pp_packet dv) /\ (is_response p -> is_response (pp_packet dv)) /\
+    reading (pp_packet dv) qls qt lA' lN' lR' /\ lA' ++ lN' ++ lR' = l1' ++ (r', x) :: l2' /\ length l1' = length l1 /\
+    length lA' = length lxa /\ length lN' = length lxn /\ length lR' = length lxr /\
+    Forall2 same_rec (lxa ++ lxn ++ lxr) (lA' ++ lN' ++ lR')).
+Print Assumptions C08_cursor_decompress.
